@@ -112,6 +112,8 @@ func QuoteName(key string, q Notation, mode int) string {
 		switch {
 		case mode == 1 && !(c >= '0' && c <= '9' || c >= 'a' && c <= 'z' || c >= 'A' && c <= 'Z'):
 			writeU(&sb, c)
+		case mode == 3:
+			writeU(&sb, c) // every character as \uXXXX (surrogate pairs beyond the BMP)
 		case c == rune(quote):
 			sb.WriteByte('\\')
 			sb.WriteByte(quote)
@@ -489,4 +491,13 @@ func RenderQuery(q *Query, st Style) string {
 // RenderSteps renders "$" followed by the given steps, canonical style.
 func RenderSteps(steps []Step) Rendered {
 	return Render(&Path{Root: RootDollar, Steps: steps}, Canon)
+}
+
+// RenderStepsRootless writes the steps without the leading "$" where the grammar allows it
+// (the first step is a name, a bracket or a filter, not a recursive descent or a function).
+func RenderStepsRootless(steps []Step) Rendered {
+	if len(steps) == 0 || !omittable(&steps[0]) {
+		return RenderSteps(steps)
+	}
+	return Render(&Path{Root: RootOmitted, Steps: steps}, Canon)
 }
